@@ -73,8 +73,20 @@ class Universe:
                                   InitialState(time_step=0, position=np.array([5.0, 1.0]), orientation=0.0))
 
         def dy(i):
+            # one dynamic obstacle per kind of prediction: none (8), set-based (11), trajectory (-7)
+            pred = None
+            if i == 11:
+                pred = SetBasedPrediction(1, [Occupancy(1, Rectangle(3.0, 2.0, np.array([6.0, 11.0]))),
+                                              Occupancy(2, Rectangle(3.0, 2.0, np.array([7.0, 11.0])))])
+            elif i == -7:
+                from commonroad.prediction.prediction import TrajectoryPrediction
+                from commonroad.scenario.state import KSState
+                from commonroad.scenario.trajectory import Trajectory
+                pred = TrajectoryPrediction(Trajectory(1, [KSState(time_step=t, position=np.array([5.0 + t, 11.0]),
+                                                                   orientation=0.0, velocity=1.0, steering_angle=0.0)
+                                                           for t in (1, 2)]), Rectangle(2.0, 1.0))
             return DynamicObstacle(i, ObstacleType.CAR, Rectangle(2.0, 1.0),
-                                   InitialState(time_step=0, position=np.array([5.0, 11.0]), orientation=0.0))
+                                   InitialState(time_step=0, position=np.array([5.0, 11.0]), orientation=0.0), pred)
 
         def ph(i):
             return PhantomObstacle(i, SetBasedPrediction(1, [Occupancy(1, Circle(1.0, np.array([0.0, 0.0])))]))
